@@ -42,52 +42,65 @@ func cmdModelMaterialise(args []string) error {
 
 var rxModel = regexp.MustCompile(`swagger:model\s+(\S+)`)
 
+type multiFlag []string
+
+func (m *multiFlag) String() string     { return strings.Join(*m, ",") }
+func (m *multiFlag) Set(v string) error { *m = append(*m, v); return nil }
+
+// model-registry -pkg <dir>=<import path> ... : one registry over several generated packages
 func cmdModelRegistry(args []string) error {
 	fs := flag.NewFlagSet("model-registry", flag.ExitOnError)
-	pkgDir := fs.String("pkg", "", "generated models directory")
-	imp := fs.String("import", "", "import path of the generated models package")
+	var pkgs multiFlag
+	fs.Var(&pkgs, "pkg", "dir=importpath (repeatable)")
 	out := fs.String("out", "registry.go", "")
 	_ = fs.Parse(args)
-	fset := token.NewFileSet()
-	pkgs, err := parser.ParseDir(fset, *pkgDir, nil, parser.ParseComments)
-	if err != nil {
-		return err
-	}
-	reg := map[string]string{}
-	for _, p := range pkgs {
-		for _, f := range p.Files {
-			for _, d := range f.Decls {
-				gd, ok := d.(*ast.GenDecl)
-				if !ok || gd.Tok != token.TYPE {
-					continue
-				}
-				for _, s := range gd.Specs {
-					ts := s.(*ast.TypeSpec)
-					doc := gd.Doc
-					if ts.Doc != nil {
-						doc = ts.Doc
-					}
-					if doc == nil {
+	var imports, entries []string
+	for i, spec := range pkgs {
+		parts := strings.SplitN(spec, "=", 2)
+		alias := fmt.Sprintf("m%d", i)
+		imports = append(imports, fmt.Sprintf("\t%s %q", alias, parts[1]))
+		fset := token.NewFileSet()
+		parsed, err := parser.ParseDir(fset, parts[0], nil, parser.ParseComments)
+		if err != nil {
+			return err
+		}
+		reg := map[string]string{}
+		for _, p := range parsed {
+			for _, f := range p.Files {
+				for _, d := range f.Decls {
+					gd, ok := d.(*ast.GenDecl)
+					if !ok || gd.Tok != token.TYPE {
 						continue
 					}
-					if m := rxModel.FindStringSubmatch(doc.Text()); m != nil {
-						reg[m[1]] = ts.Name.Name
+					for _, s := range gd.Specs {
+						ts := s.(*ast.TypeSpec)
+						doc := gd.Doc
+						if ts.Doc != nil {
+							doc = ts.Doc
+						}
+						if doc == nil {
+							continue
+						}
+						if m := rxModel.FindStringSubmatch(doc.Text()); m != nil {
+							reg[m[1]] = ts.Name.Name
+						}
 					}
 				}
 			}
 		}
+		names := make([]string, 0, len(reg))
+		for n := range reg {
+			names = append(names, n)
+		}
+		sort.Strings(names)
+		for _, n := range names {
+			entries = append(entries, fmt.Sprintf("\t%q: func() any { return new(%s.%s) },", n, alias, reg[n]))
+		}
 	}
-	names := make([]string, 0, len(reg))
-	for n := range reg {
-		names = append(names, n)
-	}
-	sort.Strings(names)
 	var b strings.Builder
-	fmt.Fprintf(&b, "package main\n\nimport models %q\n\nvar registry = map[string]func() any{\n", *imp)
-	for _, n := range names {
-		fmt.Fprintf(&b, "\t%q: func() any { return new(models.%s) },\n", n, reg[n])
-	}
-	b.WriteString("}\n")
+	b.WriteString("package main\n\nimport (\n" + strings.Join(imports, "\n") + "\n)\n\nvar registry = map[string]func() any{\n")
+	b.WriteString(strings.Join(entries, "\n"))
+	b.WriteString("\n}\n")
 	_ = os.MkdirAll(filepath.Dir(*out), 0o755)
 	return os.WriteFile(*out, []byte(b.String()), 0o644)
 }
@@ -98,25 +111,28 @@ func init() { cmds["model-calib"] = cmdModelCalib }
 
 func cmdModelCalib(args []string) error {
 	fs := flag.NewFlagSet("model-calib", flag.ExitOnError)
-	specPath := fs.String("spec", "", "")
+	var specs multiFlag
+	fs.Var(&specs, "spec", "materialised document (repeatable)")
 	instPath := fs.String("instances", "", "")
 	_ = fs.Parse(args)
-	doc, err := loadsSpec(*specPath)
-	if err != nil {
-		return err
-	}
 	rows, err := readNDJSON(*instPath)
 	if err != nil {
 		return err
 	}
-	for _, r := range rows {
-		name := r["def"].(string)
-		sch, ok := doc.Spec().Definitions[name]
-		if !ok {
-			continue
+	for _, sp := range specs {
+		doc, err := loadsSpec(sp)
+		if err != nil {
+			return err
 		}
-		valid := refValidate(&sch, doc.Spec(), roundTrip(taggedToJSON(r["doc"])))
-		fmt.Println(string(mustJSON(obj{"def": name, "i": r["i"], "valid": valid})))
+		for _, r := range rows {
+			name := r["def"].(string)
+			sch, ok := doc.Spec().Definitions[name]
+			if !ok {
+				continue
+			}
+			valid := refValidate(&sch, doc.Spec(), roundTrip(taggedToJSON(r["doc"])))
+			fmt.Println(string(mustJSON(obj{"def": name, "i": r["i"], "valid": valid})))
+		}
 	}
 	return nil
 }
